@@ -842,7 +842,7 @@ pub(crate) const fn __bytes_rcontain(left: &[u8], pattern: &[u8]) -> bool {
 
 macro_rules! matches_space {
     ($b:ident) => {
-        matches!($b, b'\t' | b'\n' | b'\r' | b' ')
+        matches!($b, b'\t' | b'\n' | b'\x0C' | b'\r' | b' ')
     };
 }
 
